@@ -325,7 +325,9 @@ Lemma step_sim st sh regs o :
               /\ st_props st' = apply_events (add_step sh regs o) (st_props st).
 Proof.
   intros I RB W. pose proof I as [A B C D]. pose proof (abs_len _ _ A) as HL.
-  destruct o as [|r|r| |n| |n|ow tm g cb].
+  destruct o as [|r|r| |n| |n|ow tm g cb|r].
+  9:{ (* another table's AddRow of a shared row: nothing of this table changes *)
+    eexists. split; [reflexivity|]. split; [exact I | reflexivity]. }
   - (* NewRow *)
     eexists. split; [reflexivity|]. split; [|reflexivity].
     cbn [new_row fst shape_step regs_step].
